@@ -27,7 +27,7 @@ import walk_C03 as W
 
 EXPECTED_ACTS = {
     "Make", "Slice", "Index", "Stride", "Rc", "TakePositions", "TakeSeqs", "OmitGapPos", "NoDegenerates",
-    "Filtered", "DegapRel", "SampleRepl", "SamplePerm", "Concat", "ConcatSlices", "ToType", "ToRna", "ToDna", "Degap", "DeepCopy",
+    "Filtered", "DegapRel", "SampleRepl", "SamplePerm", "Concat", "ConcatSlices", "ToType", "ToRna", "ToDna", "Degap", "DeepCopy", "CallerReuses",
 }
 
 # per TLC run: cfg and the walk policy of a root, chosen by (picked?, molecule):
